@@ -10,7 +10,11 @@ sshuttle.options.parser and sshuttle.cmdline.main) is run up to the hand-over
   client._main           -> recording stub returning 0
   client.socket          -> a copy of the socket module whose socket() makes fake sockets; bind()
                             fails with EADDRINUSE exactly on the (protocol, family, port) triples of `env`
-  client.getpwnam/getgrnam, client.resolvconf_nameservers -> table stubs
+  client.getpwnam/getgrnam -> table stubs
+  helpers.open           -> the case's /etc/resolv.conf and /run/systemd/resolve/resolv.conf texts: the REAL
+                            helpers.resolvconf_nameservers / family_ip_tuple read them; --ns-hosts texts are tagged by the real
+                            family_ip_tuple (as cmdline.main does; the whole command line is also run).  The family the model and
+                            the oracle use for a name server is decided on the spec side from the address text (text_family)
 and the extracted Coq model (coq/Model/Startup.v, startup_gen) on the same case; the simulated kernel answers bind()
 with success, EADDRINUSE or a refusal with another errno (address not local, invalid, port not permitted, IPv6 switched
 off), and the same environment is handed to the model.  Implementation-only environment dimensions (expected outcome
@@ -27,7 +31,9 @@ import sys
 PROP = "C15"
 RULE = ("configurations x environments: the cross product of method (nat,nft,tproxy,pf,ipfw + synthetic feature sets) x "
         "listen form per family (none/auto/address/address:port; --disable-ipv6 = v6 none) x --dns x resolv.conf families x "
-        "--ns-hosts family x --to-ns x include families (none = --auto-nets) x excludes x user/group (absent/existing/unknown), "
+        "--ns-hosts family x name-server spelling (IPv4 dotted quad; IPv6 compressed / full / embedded IPv4 tail 64:ff9b::a.b.c.d, "
+        "::ffff:a.b.c.d, ::a.b.c.d / zone id / upper case) x resolv.conf layout (one file, systemd-resolved's second file, no file, "
+        "comments and other keywords) x --to-ns x include families (none = --auto-nets) x excludes x user/group (absent/existing/unknown), "
         "each with a busy-port environment (free, 12300 busy, 12300..12290 busy, the explicit port busy, everything busy, all but "
         "9001 busy, random ranges per protocol/family), explicit ports inside and outside 9001..12300 and below 1024; listen addresses and ports the "
         "kernel refuses (not local, invalid, no privilege, IPv6 off; both families, TCP/UDP/DNS listeners, combined with busy ports); --method auto x the method the helper "
@@ -40,15 +46,22 @@ TRUSTED_BASE = [
     "EADDRNOTAVAIL for every IPv6 address when IPv6 is switched off), the refusal taking precedence; sockets of abandoned listeners count as closed; "
     "setsockopt() never fails, listen() only in the dual-stack dimension",
     "stubs of harness/props/c15.py standing for the helper process (in-process: real cmdline.main dispatch, firewall.main recorded, READY line on the real socketpair), "
-    "_main, getpwnam/getgrnam (or their absence), resolvconf_nameservers; FirewallClient itself is real except for synthetic feature sets",
+    "_main, getpwnam/getgrnam (or their absence), the two resolv.conf files (helpers.open; the real resolvconf_nameservers reads them); FirewallClient itself is real except for synthetic feature sets",
     "modelled, not verified (implementation-only dimensions): bind() of any IPv6 address failing with EADDRNOTAVAIL when IPv6 is switched off; on a dual-stack kernel "
     "listen() of the IPv4 TCP socket failing with EADDRINUSE when an IPv6 TCP socket listens on the same port, that socket then receiving the IPv4 connections",
+    "outside the Coq model (implementation-side oracle only): the address family of a name-server text.  Model/Startup.v takes (family, text) "
+    "pairs as given (helpers.family_ip_tuple is not modelled); the harness hands the model the spec-side family (socket.inet_pton of the "
+    "text without zone id, else `has a colon`) and the lower-cased resolv.conf text, runs the real family_ip_tuple / resolvconf_nameservers "
+    "on the text, and the oracle requires: every NSLIST entry carries the family of its text, IPv6 name servers are in the plan exactly when "
+    "IPv6 is active, the plan's name servers are the captured ones, `all DNS servers are IPv6` is only said when true",
     "docs/manpage.rst `--method <...>` line is read by the harness and compared with Model/Startup.v documented_methods on every run",
 ]
 ASSUMPTIONS = [
     "explicit listen ports are <= 65535 (options.parse_ipport goes through getaddrinfo, which rejects larger ones)",
     "the method offers IPv4 (client.main asserts avail.ipv4; true of every shipped method)",
     "not daemonised (check_daemon/pidfile not modelled)",
+    "name servers are address literals (a host name in --ns-hosts or resolv.conf is outside the property); --to-ns spellings are those "
+    "getaddrinfo returns unchanged",
 ]
 
 FEATKEYS = ["loopback_proxy_port", "ipv4", "ipv6", "udp", "dns", "user", "group"]
@@ -58,6 +71,42 @@ AF = {4: 2, 6: 10}
 
 def hx(s):
     return s.encode().hex() if s else "-"
+
+
+def text_family(text):
+    """SPEC side (no sshuttle code): the address family (4 / 6) of an address text: socket.inet_pton decides (an IPv6
+    zone id `%zone` is not part of the address); a text neither accepts is IPv6 exactly when it has a colon.  So
+    64:ff9b::10.0.0.53, ::ffff:192.168.1.1, ::10.9.9.9, fe80::1%eth0, 2001:DB8::AB are IPv6, 10.0.0.53 is IPv4"""
+    import socket as real
+    t = text.split("%", 1)[0]
+    for fam, af in ((4, real.AF_INET), (6, real.AF_INET6)):
+        try:
+            real.inet_pton(af, t)
+            return fam
+        except (OSError, ValueError):
+            pass
+    return 6 if ":" in text else 4
+
+
+def resolv_files(case):
+    """the texts of /etc/resolv.conf and /run/systemd/resolve/resolv.conf of the case (None = no such file):
+    case["resolv"] in order; resolv_split = k: the first k servers are in /etc/resolv.conf, the others in
+    systemd-resolved's file (absent: no systemd-resolved); resolv_style 1: comments, search/options lines, tabs, leading and
+    trailing blanks, a `nameserver` line without an address, commented-out servers; no server at all: no /etc/resolv.conf"""
+    ns = [n[1] for n in case["resolv"]]
+    k = case.get("resolv_split")
+    style = case.get("resolv_style", 0)
+
+    def render(items):
+        if style == 0:
+            return "".join("nameserver %s\n" % t for t in items)
+        out = "# Generated by NetworkManager\nsearch example.org corp.example\n"
+        for i, t in enumerate(items):
+            out += ("nameserver\t%s\n", "  nameserver %s  \n", "nameserver %s\n")[i % 3] % t
+        return out + "options ndots:1 edns0\nnameserver\n; nameserver 10.66.66.66\n#nameserver 10.77.77.77\n"
+    if k is None:
+        return {"/etc/resolv.conf": None if (style == 1 and not ns) else render(ns), "/run/systemd/resolve/resolv.conf": None}
+    return {"/etc/resolv.conf": render(ns[:k]), "/run/systemd/resolve/resolv.conf": render(ns[k:])}
 
 
 # --------------------------------------------------------------------------- model side
@@ -84,7 +133,9 @@ def case_line(case, feats, mask):
         "RUN", mask, "".join("1" if feats[k] else "0" for k in FEATKEYS),
         "1" if case["remote"] else "0", l_tok(case["l6"]), l_tok(case["l4"]),
         "1" if case["dns"] else "0",
-        lst(case["resolv"], lambda n: "%d,%s" % (n[0], hx(n[1]))),
+        # resolv.conf is read case-insensitively (helpers.resolvconf_nameservers lower-cases each line): the model gets the
+        # lower-case text; the family of every name server is the SPEC-side family of its text (text_family)
+        lst(case["resolv"], lambda n: "%d,%s" % (n[0], hx(n[1].lower()))),
         lst(case["ns_hosts"], lambda n: "%d,%s" % (n[0], hx(n[1]))),
         "-" if case["to_ns"] is None else "%s,%d" % (hx(case["to_ns"][1]), case["to_ns"][2]),
         lst(case["includes"], lambda s: "%d,%s,%d,%d,%d" % (s[0], hx(s[1]), s[2], s[3], s[4])),
@@ -322,8 +373,16 @@ def impl_run(case, via_cmdline=None, info=None):
     import subprocess
     import types
     import sshuttle.client as client
+    import sshuttle.cmdline as cmdline
     import sshuttle.helpers as helpers
     world = World(case["env"], case.get("kernel"), refusals_of(case))
+    files = resolv_files(case)
+
+    def fake_open(path, *a, **kw):                  # the only files helpers.py opens are the two resolv.conf files
+        txt = files.get(path)
+        if txt is None:
+            raise FileNotFoundError(errno.ENOENT, os.strerror(errno.ENOENT), path)
+        return io.StringIO(txt)
     rec = {}
     ends = []
     RealFW = client.FirewallClient
@@ -402,7 +461,8 @@ def impl_run(case, via_cmdline=None, info=None):
         nopwd = case.get("nopwd")                   # a platform without the pwd / grp modules
         client.getpwnam = None if nopwd else lookup(case["user"])
         client.getgrnam = None if nopwd else lookup(case["group"])
-        client.resolvconf_nameservers = lambda systemd_resolved: [(AF[n[0]], n[1]) for n in case["resolv"]]
+        # the REAL helpers.resolvconf_nameservers (and with it the real family_ip_tuple) reads the case's resolv.conf texts
+        helpers.open = fake_open
         client.debug1 = client.debug2 = client.debug3 = client.log = lambda s: None
         sys.stdout = io.StringIO()
         if via_cmdline is not None:
@@ -412,7 +472,9 @@ def impl_run(case, via_cmdline=None, info=None):
         to_ns = None if case["to_ns"] is None else (AF[case["to_ns"][0]], case["to_ns"][1], case["to_ns"][2])
         try:
             rv = client.main(l6, l4, None, "remote.example" if case["remote"] else None, None, True, 32768,
-                             case["dns"], [(AF[n[0]], n[1]) for n in case["ns_hosts"]], case["method"],
+                             # --ns-hosts: tagged by the real family_ip_tuple, as cmdline.main does (cmdline.py:75; the
+                             # whole command line is run by check_cmdline); the case's family is the spec side's
+                             case["dns"], [cmdline.family_ip_tuple(n[1]) for n in case["ns_hosts"]], case["method"],
                              None, False, case["auto_nets"],
                              [tup(s) for s in case["includes"]], [tup(s) for s in case["excludes"]],
                              False, to_ns, "./sshuttle.pid",
@@ -433,6 +495,7 @@ def impl_run(case, via_cmdline=None, info=None):
         for k, v in saved.items():
             setattr(client, k, v)
         helpers.logprefix, helpers.verbose, sys.argv[0] = saved_prefix, saved_verbose, saved_argv0
+        helpers.__dict__.pop("open", None)
         for e_ in ends:
             e_.close()
         if info is not None:
@@ -521,8 +584,19 @@ def v6_active(case, feats):
 def oracle(case, feats, out):
     """list of violated clauses of C15, judged on the implementation's outcome alone"""
     kind = out.split(" ")[0]
-    if kind == "FATAL" or not feats["ipv4"]:
+    if not feats["ipv4"]:
         return []       # a method without IPv4 is outside the property (client.main asserts avail.ipv4)
+    if kind == "FATAL":
+        if out == "FATAL dns_all_v6":
+            # the message explains the stop only when it is true: IPv6 is not active and every captured name server
+            # (--ns-hosts, with --dns those of resolv.conf) is an IPv6 address (family of the address TEXT, spec side)
+            texts = [n[1] for n in case["ns_hosts"]] + ([n[1] for n in case["resolv"]] if case["dns"] else [])
+            v4 = [t for t in texts if text_family(t) == 4]
+            if v6_active(case, feats) or v4 or not texts:
+                return ["start-up stops with `all of the system DNS servers are IPv6` although %s"
+                        % ("IPv6 is active" if v6_active(case, feats) else
+                           "an IPv4 name server is to be captured :: %s" % v4[0] if v4 else "no name server is to be captured")]
+        return []
     if kind == "CRASH":
         return ["start-up ended in an internal error: " + out.split(" ")[1]]
     if kind == "OSERR":
@@ -552,7 +626,7 @@ def oracle(case, feats, out):
                     bad.append("a listen address is neither excluded nor listed as a subnet")
         # every family with subnets / name servers has a bound listener on the reported port
         has_sub = any(s[0] == fam for s in p["inc"])
-        has_ns = any(n[0] == fam for n in p["ns"])
+        has_ns = any(n[0] == fam or text_family(n[1]) == fam for n in p["ns"])
         # on a dual-stack kernel the IPv6 TCP listener on the same port also receives the IPv4 connections
         served_by_v6 = dual and fam == 4 and p["tcp"][4] is None and p["tcp"][6] is not None and p["tcp"][6][1] == rp[4] != 0
         if has_sub and not served_by_v6:
@@ -580,10 +654,27 @@ def oracle(case, feats, out):
     # IPv6 entries exactly when IPv6 is active
     if dual and not any(p[L][4] is not None for L in ("tcp", "udpl", "dnsl")) and p["tcp"][6] is None and rp[4]:
         bad.append("a family with subnets has no TCP listener bound to the reported port")
-    has6 = (any(s[0] == 6 for s in p["inc"] + p["exc"]) or any(n[0] == 6 for n in p["ns"]) or rp[6] != 0 or dp[6] != 0
+    # the family of every name server entry is the family of its address text (decided on the spec side: text_family)
+    for n in p["ns"]:
+        if text_family(n[1]) != n[0]:
+            bad.append("a name server is handed to the helper with a family that is not the family of its address text "
+                       "(an IPv6 address as AF_INET or an IPv4 address as AF_INET6) :: %s is an IPv%d address, the plan has NSLIST %d,%s"
+                       % (n[1], text_family(n[1]), AF[n[0]], n[1]))
+    ns6 = [n[1] for n in p["ns"] if n[0] == 6 or text_family(n[1]) == 6]
+    has6 = (any(s[0] == 6 for s in p["inc"] + p["exc"]) or bool(ns6) or rp[6] != 0 or dp[6] != 0
             or any(p[L][6] is not None for L in ("tcp", "udpl", "dnsl")))
     if has6 != bool(v6_active(case, feats)):
-        bad.append("IPv6 entries present=%s but IPv6 active=%s" % (has6, bool(v6_active(case, feats))))
+        bad.append("IPv6 entries present=%s but IPv6 active=%s" % (has6, bool(v6_active(case, feats)))
+                   + (" :: the plan names the IPv6 name server %s" % ns6[0] if ns6 and not v6_active(case, feats) else ""))
+    # every name server to be captured is in the plan unless it is an IPv6 one and IPv6 is not active; nothing else is
+    want_ns = [(text_family(n[1]), n[1]) for n in case["ns_hosts"]] + \
+        ([(text_family(n[1]), n[1].lower()) for n in case["resolv"]] if case["dns"] else [])
+    if not v6_active(case, feats):
+        want_ns = [n for n in want_ns if n[0] == 4]
+    if sorted(n[1] for n in want_ns) != sorted(n[1] for n in p["ns"]):
+        bad.append("the name servers of the plan are not the captured ones (--ns-hosts, with --dns those of resolv.conf; only the "
+                   "IPv4 ones when IPv6 is not active) :: plan: %s; to be captured: %s"
+                   % (",".join(n[1] for n in p["ns"]) or "none", ",".join(n[1] for n in want_ns) or "none"))
     # nothing is requested from the helper that the method cannot do
     if p["user"] is not None and not feats["user"]:
         bad.append("--user handed to a method without user support")
@@ -593,7 +684,7 @@ def oracle(case, feats, out):
         bad.append("UDP requested from a method without UDP support")
     if p["ns"] and not feats["dns"]:
         bad.append("DNS capture requested from a method without DNS support")
-    return sorted(set(bad))
+    return sorted(set(bad))      # `clause :: detail of this case`
 
 
 # --------------------------------------------------------------------------- witnesses of the known defects
@@ -841,7 +932,12 @@ def check_cmdline(ctx, case, accepted, impl=None):
             "exc": [[fam_of(s[0]), s[1], s[2], s[3], s[4]] for s in exc],
             "to_ns": None if to_ns is None else [fam_of(to_ns[0]), to_ns[1], to_ns[2]],
             "user": user, "group": group, "tmark": tmark}
-    if want != have:
+    wrong = [n for n in have["ns"] if text_family(n[1]) != n[0]]
+    if wrong:
+        ctx.violation("cmdline.main hands client.main a --ns-hosts name server with a family that is not the family of its address text",
+                      {"case": case, "argv": argv, "clause": "cmdline ns family", "handed_over": have["ns"],
+                       "detail": "%s is an IPv%d address, handed over with family IPv%d" % (wrong[0][1], text_family(wrong[0][1]), wrong[0][0])})
+    elif want != have:
         ctx.disagree("cmdline.main -> client.main arguments", argv, have, want, None)
     # the model's listen post-processing
     its = "-" if listen_items is None else ";".join("%d,%s,%d" % (f, hx(ip), port) for f, ip, port in listen_items)
@@ -867,6 +963,29 @@ V4NETS = [[4, "10.0.0.0", 8, 0, 0], [4, "192.168.7.0", 24, 80, 80], [4, "172.16.
 V6NETS = [[6, "fd00::", 8, 0, 0], [6, "2001:db8::", 32, 443, 443], [6, "::", 0, 0, 0]]
 NS4 = [[4, "10.9.9.9"], [4, "192.168.7.1"]]
 NS6 = [[6, "fd00::53"], [6, "2001:db8::53"]]
+# spellings of name-server addresses (resolv.conf, --ns-hosts): IPv4 dotted quads; IPv6 compressed, full, with an embedded
+# IPv4 tail (NAT64 64:ff9b::a.b.c.d, IPv4-mapped ::ffff:a.b.c.d, IPv4-compatible ::a.b.c.d), with a zone id, in upper case.
+# The family stored in a case is the spec side's (text_family); the code under test only ever sees the text
+NS4X = ["10.9.9.9", "192.168.7.1", "8.8.8.8", "127.0.0.53", "10.0.0.53", "1.1.1.1"]
+NS6X = ["fd00::53", "2001:db8::53", "64:ff9b::10.0.0.53", "::ffff:192.168.1.1", "::10.9.9.9", "fe80::1%eth0", "2001:DB8::AB",
+        "64:FF9B::8.8.8.8", "2001:db8:0:0:0:0:0:35", "::FFFF:10.0.0.53", "fe80::53%2", "::1"]
+
+
+def respell(rng, case, p=0.6):
+    """replace name servers of the case by other spellings of the same family (distinct within resolv.conf / --ns-hosts)"""
+    for key in ("resolv", "ns_hosts"):
+        if case[key] and rng.random() < p:
+            out = []
+            for n in case[key]:
+                menu = [t for t in (NS4X if n[0] == 4 else NS6X) if t.lower() not in [o[1].lower() for o in out]]
+                t = rng.choice(menu)
+                out.append([text_family(t), t])
+            case[key] = out
+    if len(case["resolv"]) and rng.random() < 0.3:
+        case["resolv_split"] = rng.randint(0, len(case["resolv"]))      # systemd-resolved's second file
+    if rng.random() < 0.3:
+        case["resolv_style"] = 1
+    return case
 
 
 def listen_forms(fam, rng=None):
@@ -974,11 +1093,12 @@ def random_case(rng):
     case = {"method": method, "remote": rng.random() < 0.97, "l6": l6c, "l4": l4c, "dns": dns,
             "resolv": rng.sample(NS4 + NS6, rng.randint(0, 3)) if rng.random() < 0.8 else [],
             "ns_hosts": rng.sample(NS4 + NS6, rng.randint(0, 2)) if rng.random() < 0.5 else [],
-            "to_ns": rng.choice([None, [4, "10.1.1.1", 53], [6, "fd00::1", 5353]]),
+            "to_ns": rng.choice([None, [4, "10.1.1.1", 53], [6, "fd00::1", 5353], [6, "::ffff:10.1.1.1", 53]]),
             "includes": inc, "excludes": exc, "auto_nets": (not inc) or rng.random() < 0.2,
             "user": rng.choice([None, None, None, None, None, ["E", 1000], ["E", 0], "M"]),
             "group": rng.choice([None, None, None, None, None, ["E", 2000], "M"]), "env": []}
     case["env"] = random_env(rng, case)
+    respell(rng, case)
     if not method.startswith("synth:") and rng.random() < 0.12:
         case["method"], case["auto_resolves"] = "auto", method           # the helper picks; the client learns it from READY
     r = rng.random()
@@ -1001,7 +1121,7 @@ def random_case(rng):
 # --------------------------------------------------------------------------- the run
 def describe(case):
     d = {k: case[k] for k in ("method", "l6", "l4", "dns", "resolv", "ns_hosts", "includes", "user", "group", "env")}
-    d.update((k, case[k]) for k in ("refuse", "kernel", "nopwd") if case.get(k))
+    d.update((k, case[k]) for k in ("refuse", "kernel", "nopwd", "resolv_split", "resolv_style") if case.get(k) is not None and case.get(k) != [])
     return d
 
 
@@ -1026,6 +1146,7 @@ def correspondence(ctx):
     for c in cp:
         menu = env_menu(rng, c)
         c["env"] = rng.choice(menu)
+        respell(rng, c)
         if rng.random() < 0.1:
             c["refuse"] = random_refusals(rng, c, 0.7)
         cases.append(("cross", c))
@@ -1057,6 +1178,13 @@ def correspondence(ctx):
             if hs is None or hs[0] != c["method"]:
                 ctx.violation("the helper is not started for the method named on the command line",
                               {"case": c, "helper_argv": info["helper_argv"][-1], "helper_dispatched_to": hs, "clause": "helper method"})
+        for key in ("resolv", "ns_hosts"):
+            for n in c[key]:
+                t = n[1]
+                ctx.count("ns_spelling_%s_%s" % (key, "v4" if n[0] == 4 else "v6_zone" if "%" in t else "v6_embedded_v4" if "." in t
+                                                else "v6_upper" if t != t.lower() else "v6_hex"))
+        if c.get("resolv_split") is not None:
+            ctx.count("resolv_conf_systemd_second_file")
         cls = impl.split(" ")[0] + ("" if impl.startswith("PLAN") else " " + impl.split(" ")[1])
         ctx.count("outcome_" + cls.replace(" ", "_"))
         ctx.count("kind_" + kind)
@@ -1073,7 +1201,10 @@ def correspondence(ctx):
             if (m.group(1) == "1") != bool(v6_active(c, feats)):
                 ctx.disagree("ipv6_active", line, bool(v6_active(c, feats)), m.group(1), None)
         for b in bad:
+            b, _sep, detail = b.partition(" :: ")
             rp_ = {"case": c, "outcome": impl[:400], "clause": b}
+            if detail:
+                rp_["detail"] = detail
             if impl.startswith("OSERR ") and impl != "OSERR %d" % errno.EADDRINUSE and refusals_of(c):
                 # finding F131: a bind() refused by the kernel (not EADDRINUSE) is re-raised raw by the two bind loops
                 rp_["finding_id"] = "F131"
@@ -1124,6 +1255,11 @@ def replay(ctx, rp):
         got = impl_run(r["case"], via_cmdline=r["argv"])
         print("%s -> %s" % (r["command_line"], got))
         return got.startswith("TRACEBACK")
+    if "case" in r and r.get("clause") == "cmdline ns family":
+        got = run_cmdline(r["argv"])
+        ns = got if isinstance(got, str) else [[fam_of(n[0]), n[1]] for n in got[8]]
+        print("sshuttle %s -> client.main nslist %s" % (" ".join(r["argv"]), ns))
+        return not isinstance(got, str) and any(text_family(n[1]) != n[0] for n in ns)
     if "case" in r and r.get("clause") == "helper method":
         info = {}
         impl_run(r["case"], info=info)
